@@ -41,6 +41,15 @@ SCRIPTS = [
     ("exists_in", "DS_r <- exists_in(DS_1, DS_2, all);"),
     ("check", "DS_r <- check(DS_1[keep Me_1] >= DS_2[keep Me_1] imbalance DS_1[keep Me_1] - DS_2[keep Me_1] invalid);"),
     ("having", "DS_r <- DS_1[aggr Me_3 := sum(Me_1) group by Id_1 having count(Me_2) > 2];"),
+    # computed code items replace stale operand values ('all' output keeps the computed one): order-sensitive if miscompiled
+    ("hierarchy-all", "define hierarchical ruleset hr (variable rule Id_2) is a = b + c; d = a - e end hierarchical ruleset; "
+                      "DS_r <- hierarchy(DS_1[keep Me_1], hr rule Id_2 non_null all);"),
+    ("hierarchy-partial", "define hierarchical ruleset hr (variable rule Id_2) is a = b + c + d end hierarchical ruleset; "
+                          "DS_r <- hierarchy(DS_1[keep Me_1], hr rule Id_2 partial_zero rule_priority all); DS_s <- hierarchy(DS_1[keep Me_1], hr rule Id_2 always_null computed);"),
+    ("check-hierarchy", "define hierarchical ruleset hr (variable rule Id_2) is a = b + c errorcode \"E\" errorlevel 1; e >= d end hierarchical ruleset; "
+                        "DS_r <- check_hierarchy(DS_1[keep Me_1], hr rule Id_2 partial_null all);"),
+    ("check-datapoint", "define datapoint ruleset dpr (variable Me_1, Me_2) is r1: when Me_2 = \"x\" then Me_1 > 0 errorcode \"neg\"; r2: Me_1 < 1000 errorlevel 2 end datapoint ruleset; "
+                        "DS_r <- check_datapoint(DS_1, dpr all);"),
 ]
 
 
@@ -170,17 +179,20 @@ def run_shard(spec, emit):
     work = os.path.join(eng.SCRATCH, "c15data")
     os.makedirs(work, exist_ok=True)
     st = eng.structures(eng.mkds("DS_1", COMPS), eng.mkds("DS_2", COMPS))
-    mine = [s for i, s in enumerate(SCRIPTS) if i % spec["nshards"] == spec["shard"]]
+    ordered = SCRIPTS[4:] + SCRIPTS[:4]     # the first pass over the shards covers union3 .. check-datapoint; the four plain set operators come second
+    mine = [s for i, s in enumerate(ordered) if i % spec["nshards"] == spec["shard"]]
     if tier == "thorough":
         mine = mine + [SCRIPTS[(spec["shard"] + 7) % len(SCRIPTS)]]
     for j, (fam, script) in enumerate(mine):
-        if not bud.ok():
+        if not bud.ok() and tier != "quick":     # quick: at most two scripts per shard, both always run
             break
         fmt = "parquet" if (spec["shard"] + j) % 2 else "csv"
-        dps = make_inputs(n, spec["seed"] * 101 + spec["shard"], work, fmt)
+        # the final de-duplication of hierarchy(all) only spans several morsels from ~50 000 groups on
+        nn = 300_000 if tier == "quick" and fam.startswith("hierarchy") else n
+        dps = make_inputs(nn, spec["seed"] * 101 + spec["shard"], work, fmt)
         kw = {"script": script, "data_structures": st, "datapoints": dps, "return_only_persistent": False}
-        compare_configs(f"{script} on {n} rows ({fmt})", f"gen:{fam}", kw, f"rows=1e{len(str(n)) - 1}", "256MB" if n >= 100_000 else "64MB", emit,
-                        {"gen": [fam, script, n, fmt, spec["seed"] * 101 + spec["shard"]]})
+        compare_configs(f"{script} on {nn} rows ({fmt})", f"gen:{fam}", kw, f"rows=1e{len(str(nn)) - 1}", "256MB" if nn >= 100_000 else "64MB", emit,
+                        {"gen": [fam, script, nn, fmt, spec["seed"] * 101 + spec["shard"]]})
     shutil.rmtree(work, ignore_errors=True)
     for c in rider.corpus_slice(spec, quick_fraction=40, tag="C15")[: (3 if tier == "quick" else 12)]:
         if not bud.ok():
